@@ -42,12 +42,24 @@ const (
 	phantomCount
 )
 
-const maxCompositeNesting = 20 // protect against malicious fonts
+const (
+	maxCompositeNesting = 20 // protect against malicious fonts
+
+	// maximum number of components visited (at all levels) to build the points of one glyph :
+	// the nesting limit alone does not bound the work, since each level may use several components
+	maxCompositeOperations = 1 << 14
+)
 
 // use the `glyf` table to fetch the contour points,
 // applying variation if needed.
 // for composite, recursively calls itself; allPoints includes phantom points and will be at least of length 4
 func (f *Face) getPointsForGlyph(gid tables.GlyphID, currentDepth int, allPoints *[]contourPoint /* OUT */) {
+	budget := maxCompositeOperations
+	f.pointsForGlyph(gid, currentDepth, allPoints, &budget)
+}
+
+// [budget] is shared by all the recursive calls, and decremented at each component
+func (f *Face) pointsForGlyph(gid tables.GlyphID, currentDepth int, allPoints *[]contourPoint /* OUT */, budget *int) {
 	// adapted from harfbuzz/src/hb-ot-glyf-table.hh
 
 	if currentDepth > maxCompositeNesting || int(gid) >= len(f.glyf) {
@@ -88,7 +100,11 @@ func (f *Face) getPointsForGlyph(gid tables.GlyphID, currentDepth int, allPoints
 			// recurse on component
 			var compPoints []contourPoint
 
-			f.getPointsForGlyph(item.GlyphIndex, currentDepth+1, &compPoints)
+			if *budget <= 0 { // too many components
+				return
+			}
+			*budget--
+			f.pointsForGlyph(item.GlyphIndex, currentDepth+1, &compPoints, budget)
 
 			LC := len(compPoints)
 			if LC < phantomCount { // in case of max depth reached
